@@ -139,9 +139,69 @@ func c12Call(p c12Prog, entry string, limit int, cancelled bool) (recv string, e
 	return string(w.buf), err, ""
 }
 
+// a context cancelled WHILE the render runs (by a template function), documents below and above every
+// plausible buffer size: whatever the call returns, an error means nothing was written and nil means the
+// whole document was (direct oracle)
+func c12MidCancel(r *Run) {
+	for _, rows := range []int{3, 400, 3000} {
+		for _, at := range []string{"early", "late"} {
+			body := strings.Repeat("<p>row with some text to fill the line {{ n }}</p>\n", rows)
+			tpl := "<i>{{ stop() }}</i>" + body
+			if at == "late" {
+				tpl = body + "<i>{{ stop() }}</i>"
+			}
+			for _, entry := range []string{"Render", "RenderFile", "RenderString", "RenderByte", "RenderReader", "Render+layout"} {
+				ctx, cancel := context.WithCancel(context.Background())
+				files := fstest.MapFS{"page.vuego": &fstest.MapFile{Data: []byte(tpl)}}
+				if entry == "Render+layout" {
+					files["page.vuego"] = &fstest.MapFile{Data: []byte("---\nlayout: la\n---\n" + tpl)}
+					files["layouts/la.vuego"] = &fstest.MapFile{Data: []byte(`<main v-html="content"></main><footer>{{ n }}</footer>`)}
+				}
+				t := vuego.NewFS(files, vuego.WithFuncs(vuego.FuncMap{"stop": func() string { cancel(); return "" }})).Fill(map[string]any{"n": 1})
+				var buf bytes.Buffer
+				var err error
+				pan := ""
+				func() {
+					defer func() {
+						if x := recover(); x != nil {
+							pan = fmt.Sprint(x)
+						}
+					}()
+					switch entry {
+					case "Render", "Render+layout":
+						err = t.Load("page.vuego").Render(ctx, &buf)
+					case "RenderFile":
+						err = t.RenderFile(ctx, &buf, "page.vuego")
+					case "RenderString":
+						err = t.RenderString(ctx, &buf, tpl)
+					case "RenderByte":
+						err = t.RenderByte(ctx, &buf, []byte(tpl))
+					case "RenderReader":
+						err = t.RenderReader(ctx, &buf, strings.NewReader(tpl))
+					}
+				}()
+				cancel()
+				r.Eval(fmt.Sprintf("mid-cancel:%d:%s:%s", rows, at, entry), true, nil)
+				r.Count("stream:mid-render-cancel(oracle only)")
+				sig := map[string]string{"oracle": "mid-render-cancel", "entry": entry}
+				desc := map[string]any{"entry": entry, "rows": rows, "stop": at, "received_bytes": buf.Len(), "err": fmt.Sprint(err)}
+				switch {
+				case pan != "":
+					r.Fail("a render panics when its context is cancelled while it runs", sig, desc)
+				case err != nil && buf.Len() > 0:
+					r.Fail("a render returned an error after writing part of the document", sig, desc)
+				case err == nil && !strings.Contains(buf.String(), "row with some text"):
+					r.Fail("a render returned nil without writing the document", sig, desc)
+				}
+			}
+		}
+	}
+}
+
 func init() { streams["C12"] = runC12 }
 
 func runC12(r *Run) {
+	c12MidCancel(r)
 	r.Imports = []string{"Model.Entry"}
 	r.Rule("every Template render entry point (Render with/without layouts, RenderFile, RenderString, RenderByte, RenderReader) x a catalogue of succeeding and failing programs " +
 		"(failure early, late, inside include, inside loop, unmet :required, missing page, missing layout, failure in a layout, in the last link of a 3-chain, layout cycle) " +
